@@ -54,7 +54,10 @@ class PyModel:
             os.makedirs(os.path.dirname(path), exist_ok=True)
             with open(path, "w") as f:
                 f.write(text)
-        p = subprocess.run([yardl_bin, "generate"], cwd=os.path.join(self.dir, pkg.dirname), capture_output=True, text=True)
+        env = None
+        if getattr(pkg, "versions_from_git", False) and pkg.versions:
+            env = self._versions_into_git(pkg)
+        p = subprocess.run([yardl_bin, "generate"], cwd=os.path.join(self.dir, pkg.dirname), capture_output=True, text=True, env=env)
         if p.returncode != 0:
             shutil.rmtree(self.dir, ignore_errors=True)
             raise GeneratorRejected(p.stderr[-800:])
@@ -71,6 +74,45 @@ class PyModel:
         finally:
             if self.pydir in sys.path:
                 sys.path.remove(self.pydir)
+
+    def _versions_into_git(self, pkg):
+        """The previous versions become commits of one repository (each release a commit of the same `model` directory) and
+        the manifest names them by URL with ?ref=<commit>&dir=model, as docs/packages describes; the directories themselves
+        are removed.  https://git.example.invalid/... is mapped to the local repository with git's url.<path>.insteadOf, and
+        HOME is a scratch directory so that yardl's clone cache starts empty and goes away with the model.  Returns the
+        environment for yardl."""
+        repo = os.path.join(self.dir, "releases")
+        home = os.path.join(self.dir, "home")
+        os.makedirs(repo)
+        os.makedirs(home)
+        cfg = os.path.join(self.dir, "gitconfig")
+        url = "https://git.example.invalid/acme/models"
+        with open(cfg, "w") as f:
+            f.write('[url "%s"]\n\tinsteadOf = %s\n[safe]\n\tdirectory = *\n[advice]\n\tdetachedHead = false\n[init]\n\tdefaultBranch = main\n' % (repo, url))
+        env = dict(os.environ, HOME=home, GIT_CONFIG_GLOBAL=cfg, GIT_CONFIG_NOSYSTEM="1", GIT_AUTHOR_NAME="r", GIT_AUTHOR_EMAIL="r@example.invalid",
+                   GIT_COMMITTER_NAME="r", GIT_COMMITTER_EMAIL="r@example.invalid", GIT_AUTHOR_DATE="2020-01-01T00:00:00Z", GIT_COMMITTER_DATE="2020-01-01T00:00:00Z")
+
+        def git(*a):
+            return subprocess.run(["git", "-C", repo] + list(a), capture_output=True, text=True, env=env, check=True).stdout.strip()
+        git("init", "-q")
+        man = os.path.join(self.dir, pkg.dirname, "_package.yml")
+        text = open(man).read()
+        # releases in the order they were made (labels v0, v1, ... whatever the order of the manifest)
+        for label, old in sorted(pkg.versions, key=lambda lv: (len(lv[0]), lv[0])):
+            src = os.path.join(self.dir, old.dirname)
+            dst = os.path.join(repo, "model")
+            shutil.rmtree(dst, ignore_errors=True)
+            shutil.copytree(src, dst)
+            git("add", "-A")
+            git("commit", "-q", "--allow-empty", "-m", "release " + label)
+            commit = git("rev-parse", "HEAD")
+            rel = os.path.relpath(src, os.path.join(self.dir, pkg.dirname))
+            assert rel in text, (rel, text)
+            text = text.replace(rel, '"%s?ref=%s&dir=model"' % (url, commit), 1)
+            shutil.rmtree(src)
+        with open(man, "w") as f:
+            f.write(text)
+        return env
 
     def _purge(self):
         for name in [n for n in sys.modules if n == self.modname or n.startswith(self.modname + ".")]:
